@@ -337,3 +337,135 @@ def _tracker_update(repo):
         raise KeyError("no forwarding methods in render_guarded")
     lean = "def c19TrackerUpdate : List (String × String) := [" + ", ".join("(%s, %s)" % (lean_str(a), lean_str(b)) for a, b in rows) + "]"
     return rows, lean
+
+
+def fn_body_blank(s, name):
+    """(start, body) of the first `fn name` in the blanked source `s`"""
+    m = re.search(r"\bfn\s+%s\b" % re.escape(name), s)
+    if not m:
+        raise KeyError("fn " + name)
+    b0 = s.index("{", m.end())
+    return m.start(), s[m.end():b0], s[b0:match_paren(s, b0)]
+
+
+def _uses_of(name, body):
+    """how the value bound to `name` is used in `body`: `method:<m>` (a method is called on it —
+    the value is looked at or taken apart), `arg:<f>` (it is handed on as the argument of f),
+    `other`"""
+    uses = []
+    for m in re.finditer(r"\b%s\b" % re.escape(name), body):
+        after = body[m.end():]
+        before = body[:m.start()]
+        mm = re.match(r"\s*\.\s*(\w+)\s*(::<[^>]*>)?\s*\(", after)
+        if mm:
+            uses.append("method:" + mm.group(1))
+            continue
+        bm = re.search(r"([\w:]+)\s*\(\s*$", before)
+        if bm and re.match(r"\s*\)", after):
+            uses.append("arg:" + bm.group(1).split("::")[-1])
+            continue
+        uses.append("other")
+    return uses
+
+
+@item("C19_BOUNDARY_BODIES")
+def _boundary_bodies(repo):
+    """`write_failure`, `WriteWrapper::take_err`, `WriteWrapper::check` (output.rs): what happens to
+    the sink's io::Error between the error slot of the adapter and the returned `Error`.  One row
+    per function:
+      io_uses   uses of every variable that holds the io::Error (a parameter of type io::Error, a
+                `Some(x)` binding): `arg:<f>` = handed on to f untouched, `method:<m>` = a method
+                is called on it (it is inspected / taken apart), `other`
+      slot      the method chain on `self.err` (with function arguments of `map`)
+      branches  number of if / match / return / `?` / loops in the body
+      kinds     the `ErrorKind::X` mentioned
+    The model (`writeFailure`, `WriteWrapper.takeErr`, `WriteWrapper.check`) wraps the token
+    without looking at it; `MJ.C19.boundary_wraps_untouched` pins the rows."""
+    raw = read(repo, "minijinja/src/output.rs")
+    cut = raw.find("#[cfg(test)]")
+    if cut >= 0:
+        raw = raw[:cut]
+    s = blank_comments_and_strings(raw)
+    rows = []
+    for fn in ["write_failure", "take_err", "check"]:
+        _, sig, body = fn_body_blank(s, fn)
+        names = re.findall(r"(\w+)\s*:\s*(?:std::)?io::Error\b", sig)
+        names += re.findall(r"\bSome\s*\(\s*(?:mut\s+)?(\w+)\s*\)", body)
+        names += re.findall(r"\|\s*(\w+)\s*(?::[^|]*)?\|", body)           # closure parameters
+        uses = []
+        for n in dict.fromkeys(names):
+            u = _uses_of(n, body)
+            # the binding occurrence of a pattern / closure parameter is not a use
+            if n not in re.findall(r"(\w+)\s*:\s*(?:std::)?io::Error\b", sig) and u:
+                u = u[1:] if u[0] in ("other",) or u[0].startswith("arg:Some") else u
+            uses += u
+        chains = []
+        for m in re.finditer(r"\bself\s*\.\s*err\b", body):
+            rest, chain = body[m.end():], []
+            while True:
+                mm = re.match(r"\s*\.\s*(\w+)\s*\(", rest)
+                if not mm:
+                    break
+                k = rest.index("(", mm.start())
+                end = match_paren(rest, k)
+                arg = "".join(rest[k + 1:end - 1].split())
+                chain.append(mm.group(1) + ("(%s)" % arg if mm.group(1) in ("map", "map_or", "and_then", "map_or_else", "filter") else ""))
+                rest = rest[end:]
+            chains.append(".".join(chain) if chain else "-")
+        branches = len(re.findall(r"\bif\b|\bmatch\b|\breturn\b|\?|\bwhile\b|\bfor\b|\bloop\b", body))
+        kinds = sorted(set(re.findall(r"\bErrorKind::(\w+)", body)))
+        rows.append((fn, ",".join(uses), ";".join(chains), branches, ",".join(kinds)))
+    lean = ("def c19BoundaryBodies : List (String × String × String × Nat × String) := ["
+            + ", ".join("(%s, %s, %s, %d, %s)" % (lean_str(a), lean_str(b), lean_str(c), d, lean_str(e)) for a, b, c, d, e in rows) + "]")
+    return rows, lean
+
+
+@item("C19_BOUNDARY_SITES")
+def _boundary_sites(repo):
+    """every function that builds a `WriteWrapper`: how often it calls `check` and `take_err` on it
+    and on which arm (`Ok` → check, `Err` → take_err)"""
+    rows = []
+    for path in sorted(glob.glob(os.path.join(repo, "minijinja/src/**/*.rs"), recursive=True)):
+        rel = os.path.relpath(path, repo).replace("minijinja/src/", "")
+        s = blank_comments_and_strings(open(path, encoding="utf-8").read())
+        for m in re.finditer(r"\bWriteWrapper\s*\{\s*w\b", s):
+            if re.search(r"\bstruct\s+$", s[max(0, m.start() - 12):m.start()]):
+                continue
+            fn = enclosing_fn(s, m.start())
+            fm = list(re.finditer(r"\bfn\s+%s\b" % re.escape(fn), s[:m.start()]))[-1]
+            b0 = s.index("{", fm.end())
+            body = s[b0:match_paren(s, b0)]
+            ok_arm = len(re.findall(r"\bOk\s*\(\s*\w+\s*\)\s*=>\s*\w+\s*\.\s*check\s*\(", body))
+            err_arm = len(re.findall(r"\bErr\s*\(\s*\w+\s*\)\s*=>\s*Err\s*\(\s*\w+\s*\.\s*take_err\s*\(", body))
+            rows.append((rel, fn, len(re.findall(r"\.\s*check\s*\(", body)), len(re.findall(r"\.\s*take_err\s*\(", body)), ok_arm, err_arm))
+    if not rows:
+        raise KeyError("no WriteWrapper construction found")
+    lean = ("def c19BoundarySites : List (String × String × Nat × Nat × Nat × Nat) := ["
+            + ", ".join("(%s, %s, %d, %d, %d, %d)" % (lean_str(a), lean_str(b), c, d, e, f) for a, b, c, d, e, f in rows) + "]")
+    return rows, lean
+
+
+@item("C19_WRITEWRAPPER_STICKY")
+def _writewrapper_sticky(repo):
+    """the methods of `impl fmt::Write for WriteWrapper<W>`: does the body return `Err(fmt::Error)`
+    when `self.err` is already set, *before* anything is handed to the sink `self.w`?  (A method
+    without a call on `self.w` is sticky through the methods it delegates to.)  The model's
+    `WriteWrapper.writeBytes` has this guard; `MJ.C19.sticky_after_error` rests on it."""
+    raw = read(repo, "minijinja/src/output.rs")
+    s = blank_comments_and_strings(raw)
+    m = re.search(r"impl\s*<[^>]*>\s*fmt::Write\s+for\s+WriteWrapper\s*<[^>]*>\s*\{", s)
+    if not m:
+        raise KeyError("impl fmt::Write for WriteWrapper")
+    b0 = s.index("{", m.end() - 1)
+    body = s[b0:match_paren(s, b0)]
+    rows = []
+    for fm in re.finditer(r"\bfn\s+(\w+)\s*\(", body):
+        f0 = body.index("{", fm.end())
+        fbody = body[f0:match_paren(body, f0)]
+        sink = re.search(r"\bself\s*\.\s*w\b", fbody)
+        guard = re.search(r"\bif\s+self\s*\.\s*err\s*\.\s*is_some\s*\(\s*\)\s*\{\s*return\s+Err\s*\(\s*fmt::Error\s*\)\s*;?\s*\}", fbody)
+        rows.append((fm.group(1), sink is None or (guard is not None and guard.start() < sink.start())))
+    if not rows:
+        raise KeyError("no methods in impl fmt::Write for WriteWrapper")
+    lean = "def c19WriteWrapperSticky : List (String × Bool) := [" + ", ".join("(%s, %s)" % (lean_str(a), "true" if b else "false") for a, b in rows) + "]"
+    return rows, lean
